@@ -210,7 +210,10 @@ fn replay(args: &[String]) -> Result<u8, String> {
             eprintln!("{}", v.msg);
             return Ok(1);
         }
-        return Err("replay reproduced the violation but with a different schedule digest".into());
+        // Still a violation: report it, but say that the replay was not bit-identical.
+        println!("VIOLATION property={} replay={path}", rf.property);
+        eprintln!("WARNING: replay reproduced the violation but with a different schedule digest\n{}", v.msg);
+        return Ok(1);
     }
     Ok(0)
 }
